@@ -88,6 +88,12 @@ def program_list(tier):
     if tier == "thorough":
         shapes += [((4,), ("d0",)), ((3, 2), ("d0", "d1")), ((2, 3), ("d0", "d1"))]
     progs = []
+    # batching of a non-leading dimension with keep_dim (needs a reduced dimension of size >= 3)
+    for op in ("sum", "mean", "max"):
+        for keep in (False, True):
+            progs.append(("reduce", (2, 3), ("d0", "d1"), op, "d1", 2, keep))
+    progs.append(("expand-inner", (2,), ("d0",), (2, 1)))
+    progs.append(("expand-inner", (2,), ("d0",), (3, 1)))
     for shape, dims in shapes:
         for di, d in enumerate(dims):
             n = shape[di]
@@ -270,6 +276,23 @@ def build_and_eval(prog):
     if kind == "map":
         act = apply_guarded("map", lambda: A.action.map(fmap))
         return finish(act, {idx: fmap(v) for idx, v in vals.items()}, dims, coords)
+    if kind == "expand-inner":
+        # inner arrays with an extra axis of length 1: only the expanded axis may be dropped
+        inner = prog[3]
+        A.arr = {idx: E.fresh_array(f"i{''.join(map(str, idx))}", inner) for idx in np.ndindex(*shape)}
+        pay = np.empty(shape, dtype=object)
+        for idx in np.ndindex(*shape):
+            pay[idx] = A._mk(idx)
+        A.action = fluent.from_source(pay, dims=list(dims), coords=A.coords)
+        vals = dict(A.arr)
+        act = apply_guarded("expand", lambda: A.action.expand("e", internal_dim=0, dim_size=inner[0]))
+        want = {}
+        for idx, v in vals.items():
+            for e in range(inner[0]):
+                want[(e,) + idx] = v[e]
+        c2 = dict(coords)
+        c2["e"] = list(range(inner[0]))
+        return finish(act, want, ("e",) + tuple(dims), c2)
     if kind == "expand":
         act = apply_guarded("expand", lambda: A.action.expand("e", internal_dim=0, dim_size=INNER[0]))
         want = {}
